@@ -35,6 +35,11 @@ def build_tree(sc: Scratch) -> Tree:
     t.file("hot/sub/x.txt", "x\n")
     t.file("hot/.names", "Path=./file03.txt\nName=Renamed Three\nNumb=1\n")
     t.file("hot/.abstract", "The hot directory")
+    # several more directories, so that different directories are being listed (and their caches written) at once
+    for k in range(6):
+        for i in range(5):
+            t.file("many/d%d/f%d.txt" % (k, i), "d%d f%d\n" % (k, i))
+        t.file("many/d%d/.abstract" % k, "Directory number %d" % k)
     t.file("small.txt", "small\n")
     t.file("large.bin", trees.gen_content(rng, 300000, "binary"))
     # several large documents, each block of each naming its file and offset: foreign bytes are recognisable
@@ -66,6 +71,9 @@ def request_mix() -> typing.List[typing.Tuple[str, bytes, typing.Optional[bytes]
     mix = []
     for v in ("gopher", "gophers", "gopherp+", "gopherp$", "gopherps$", "http", "https", "wap", "gemini", "spartan"):
         mix.append((v, b"/hot", None))
+    for k in range(6):
+        for v in ("gopher", "http", "gemini", "gopherp$", "spartan", "wap"):
+            mix.append((v, b"/many/d%d" % k, None))
     for v in ("gopher", "http", "gemini", "gopherp$", "spartan"):
         mix.append((v, b"/arch.zip", None))
         mix.append((v, b"/arch.zip/many", None))
